@@ -74,6 +74,54 @@ def h_max(ctx, n, k):
     ctx.claim('maximum_modulus_is_true', ctx.all_([ctx.ge(y * y, F[j] * F[j]) for j in multi_indices(n)]))
 
 
+def _cheb_val(coef, x):
+    """sum_k coef[k] T_k(x) by the three-term recurrence."""
+    t0, t1 = 1, x
+    v = coef[0]
+    for k in range(1, len(coef)):
+        v = v + coef[k] * t1
+        t0, t1 = t1, 2 * x * t1 - t0
+    return v
+
+
+def h_func_beam(ctx, n, k):
+    """Functional variant on a rank-1 coefficient tensor: the returned point
+    lies in the cube and the interpolant's modulus there is >= its modulus at
+    an arbitrary (symbolic) point of the cube.  The last core is given as
+    s * (unit vector) after the routine's sqrt(2) scaling of the zeroth
+    coefficient, so that its RQ factorisation is the registered one."""
+    d = len(n)
+    sq2 = np.sqrt(ctx.const(2)) if is_sym(ctx) else np.sqrt(2.)
+    if is_sym(ctx):
+        sq2 = ctx.root(ctx.const(2), 2)
+    A = [ctx.array('a0', (1, n[0], 1))]
+    for t in range(1, d):
+        u = householder_frame(ctx, f'u{t}', n[t], 1)[:, 0]
+        s = ctx.real(f's{t}')
+        ctx.assume(ctx.gt(s, 0))
+        row = (u * s).reshape(1, n[t])
+        expect(ctx, 'rq', row, (eye(ctx, 1) * s, u.reshape(1, n[t]).copy()))
+        core = row.copy()
+        core[0, 0] = core[0, 0] / sq2
+        A.append(core.reshape(1, n[t], 1))
+    ctx.assume(ctx.gt(sumsq(A[0]), 0), 'the interpolant is not identically zero')
+    A0 = [G.copy() for G in A]
+    x = teneva.optima_func_tt_beam(A, k)
+    ctx.claim('point_shape', np.shape(x) == (d,))
+    ctx.claim('point_in_cube', ctx.all_([ctx.all_([ctx.ge(v, -1), ctx.le(v, 1)]) for v in x]))
+    z = vec(ctx, 'z', d)
+    for v in z:
+        ctx.assume(ctx.ge(v, -1))
+        ctx.assume(ctx.le(v, 1))
+    # rank 1: the interpolant is a product of univariate factors, and (not being
+    # identically zero) its modulus is maximal iff every factor's modulus is
+    for t in range(d):
+        fx = _cheb_val(list(A0[t][0, :, 0]), x[t])
+        fz = _cheb_val(list(A0[t][0, :, 0]), z[t])
+        ctx.claim(f'maximum_modulus_factor_{t}', ctx.ge(fx * fx, fz * fz))
+    ctx.claim('argument_untouched', all(bool(ctx.all_eq(a, b)) for a, b in zip(A, A0)))
+
+
 def _nondet_index(ctx, tag, n):
     """A nondeterministically chosen multi-index (every choice explored by forking)."""
     if not is_sym(ctx):
@@ -197,6 +245,9 @@ def instances(tier):
     out.append({'func': 'h_concrete_pruned', 'params': {}, 'opts': {'concrete_only': True}})
     out.append({'func': 'h_optima_tt_order', 'params': {'n': [2, 2], 'r': 1}, 'opts': {'symbolic_signs': False}})
     out.append({'func': 'h_optima_qtt_values', 'params': {'q': 1}, 'opts': {'symbolic_signs': False}})
+    # functional variant, rank-1 coefficient tensors with two Chebyshev coefficients per mode
+    for n, k in [([2, 2], 2), ([2, 2], 1)] + ([] if quick else [([2, 2], 3)]):
+        out.append({'func': 'h_func_beam', 'params': {'n': n, 'k': k}, 'opts': {'generic_divisors': True}})
     if not quick:
         out.append({'func': 'h_optima_tt_order', 'params': {'n': [2, 3], 'r': 2}, 'opts': {'symbolic_signs': False}})
         out.append({'func': 'h_optima_qtt_values', 'params': {'q': 2}, 'opts': {'symbolic_signs': False}})
